@@ -80,6 +80,7 @@ fn main() {
                     args.get(6).and_then(|s| s.parse().ok()),
                     &mut out,
                 ),
+                "unreg" => scen_exec::run_unreg(seed, tier, &mut out),
                 "pairs" => scen_exec::run_pairs(
                     seed,
                     tier,
